@@ -264,6 +264,40 @@ def check_diag_stretch(ctx: Ctx, i: int, rng) -> None:
     ctx.case(f'diagstretch:{subs}:{bshape}', True, sample=cfg)
 
 
+BROADCASTS = [('ij,j->i', (2, 1), (3,)), ('ij...,j...->i...', (2, 3, 5), (3,)), ('ij...,j...->i...', (2, 3, 5), (3, 1)),
+              ('ij...,j...->i...', (2, 1), (3, 2)), ('ij...,j...->i...', (2, 3, 1), (3, 4)), ('kij,kj->ki', (1, 2, 3), (4, 3)),
+              ('ikj,kj->ki', (2, 1, 3), (4, 3)), ('ij...,j...->i...', (2, 1, 3), (3,)), ('...ij,...j->...i', (4, 2, 1), (1, 4)),
+              ('ij...,j...->i...', (2, 1, 2), (2,)), ('ij...,j...->i...', (3, 1, 4), (4, 1)), ('hij...,hj...->hi...', (1, 3, 3), (2, 3)),
+              ('ij...,j...->i...', (2, 3, 4), (3, 4)), ('ij...,j...->i...', (2, 3, 1, 1), (3, 2, 2))]
+
+
+def check_broadcast(ctx: Ctx, i: int, rng) -> None:
+    """blocks that einsum BROADCASTS against the input (a size-1 axis stretched, batch axes the input lacks — including
+    pairs of broadcasts that cancel in the element count): `.T` either raises ValueError or is the exact transpose"""
+    from furax._base.dense import DenseBlockDiagonalOperator as Dense
+    subs, bshape, xshape = BROADCASTS[i % len(BROADCASTS)]
+    blocks = np.array([rng.randint(1, 4) for _ in range(int(np.prod(bshape)))], dtype=np.float64).reshape(bshape)
+    cfg = {'subscripts': subs, 'blocks_shape': bshape, 'leaf_shape': xshape}
+    st, op = safe(lambda: Dense(jnp.asarray(blocks, dtype=jnp.float32), jax.ShapeDtypeStruct(xshape, jnp.float32), subs))
+    if st != 'ok':
+        ctx.count('broadcast:ctor-refused')
+        ctx.case(f'broadcast:{i % len(BROADCASTS)}', False)
+        return
+    stm, m = safe(gen.dense, op)
+    stt, t = safe(lambda: op.T)
+    if stm == 'ok' and stt == 'ok':
+        st2, mt = safe(gen.dense, t)
+        if st2 != 'ok' or mt.shape != m.T.shape or not np.array_equal(mt, m.T):
+            ctx.fail('broadcast', i, 'einsum-transpose-not-adjoint:broadcast-blocks', f'{subs!r} with blocks {bshape} on a leaf {xshape}: '
+                     f'.T is accepted but dense(op.T) {"cannot be formed (" + st2 + ")" if st2 != "ok" else "is not dense(op).T"}', cfg)
+        ctx.count('broadcast:transposed')
+    elif stt not in ('ok', 'ValueError'):
+        ctx.fail('broadcast', i, f'einsum-transpose-raises:{stt}', f'{subs!r}: .T raised {stt} (a refusal is a ValueError)', cfg)
+    else:
+        ctx.count('broadcast:refused')
+    ctx.case(f'broadcast:{subs}:{bshape}:{xshape}', True, sample=cfg)
+
+
 MALFORMED = ['ij', 'ij,j', 'ij,j,k->i', 'ij->i', 'ij,j->i->k', ',->', 'ij,j->', 'ij,,j->i', '->ij,j']
 
 
@@ -296,6 +330,9 @@ def run(ctx: Ctx) -> None:
     for i in range(120 if ctx.tier == 'quick' else 600):
         if ctx.want('pytree', i):
             check_pytree(ctx, i, ctx.rng('pytree', i))
+    for i in range(len(BROADCASTS)):
+        if ctx.want('broadcast', i):
+            check_broadcast(ctx, i, ctx.rng('broadcast', i))
     for i in range(4):
         if ctx.want('diagstretch', i):
             check_diag_stretch(ctx, i, ctx.rng('diagstretch', i))
